@@ -198,6 +198,49 @@ func c11(p *Pkg, _ *Pkg, payload json.RawMessage, res *Result) {
 				if nMal > 1 {
 					continue
 				}
+				// schemes that read the same header see the same value: what each of them holds follows from the
+				// header actually sent (the last one set), not from its own state alone
+				carrier := func(s refmodel.Scheme) string {
+					switch s.Kind {
+					case "bearer":
+						return "Authorization"
+					case "apikey-hdr":
+						return http.CanonicalHeaderKey(s.Name)
+					}
+					return ""
+				}
+				shared := false
+				for i, k := range keys {
+					for _, k2 := range keys[i+1:] {
+						if c := carrier(schemes[k]); c != "" && c == carrier(schemes[k2]) {
+							shared = true
+						}
+					}
+				}
+				if shared {
+					if nMal > 0 {
+						continue
+					}
+					for _, k := range keys {
+						c := carrier(schemes[k])
+						n := 0
+						for _, k2 := range keys {
+							if carrier(schemes[k2]) == c {
+								n++
+							}
+						}
+						if c == "" || n < 2 {
+							continue
+						}
+						val := hdr.Get(c)
+						want := "good-" + k
+						if schemes[k].Kind == "bearer" {
+							want = "Bearer good-" + k
+						}
+						creds[k] = refmodel.Cred{Present: val != "", Valid: val == want, Installed: installed[k]}
+					}
+					desc = append(desc, fmt.Sprintf("(shared header carries %q)", hdr.Get(carrier(schemes[keys[0]]))))
+				}
 				in := sop.Method + " " + sop.Path + " " + strings.Join(desc, " ")
 				ranOp, seenMark, consulted = nil, nil, nil
 				rec := NewRecorder()
